@@ -1,7 +1,12 @@
 """C09 - maildir names, flags, subdirectories and timestamps (flag algebra; destinations/timestamps: process level)."""
+import concurrent.futures as cf
 import random
+import re
 import vlib
 import evalcommon as ec
+import proc
+import world
+import worldscen as ws
 
 NAMES = ['1.h', '2.h:2,', '3.h:2,S', '4.h:2,FRS', '5.h:2,sa', '6.h:1,S', '7:2,:2,T', '8.h:2', '9.h:', 'a:b:2,X', 'b.h:2,S1', 'c.h:2,ZAz',
          'd.h:2,SS', 'e.h:2,s', 'f:2,S:', ':2,', 'g.h:2,SRFPTD', 'h.h:2,abcxyzABCXYZ']
@@ -9,6 +14,147 @@ NAMES = ['1.h', '2.h:2,', '3.h:2,S', '4.h:2,FRS', '5.h:2,sa', '6.h:1,S', '7:2,:2
 
 def A(s):
     return s.encode('latin-1') if isinstance(s, str) else s
+
+
+R = '@R@'
+GEN = re.compile(r'^1790000000\.4242_(\d+)\.host(:2,[A-Za-z]*)?$')
+
+
+def letters(name):
+    return set(name.rsplit(':2,', 1)[1]) if ':2,' in name else set()
+
+
+def canon_suffix(fl):
+    return ':2,' + ''.join(sorted(c for c in fl if c.isupper())) + ''.join(sorted(c for c in fl if c.islower()))
+
+
+class PScen:
+    """A process-level scenario: configuration, initial messages {(md, sub, name): id}, decoys, device map and what the documented
+    behaviour makes of each message: expect(md, sub, name) -> (maildir, subdir, extra flag letters)."""
+
+    def __init__(self, name, conf, msgs, expect, decoys=(), devmap=(), dirs=('src', 'dstA', 'dstB')):
+        self.name, self.conf, self.msgs, self.expect, self.decoys, self.devmap, self.dirs = name, conf, msgs, expect, list(decoys), devmap, dirs
+
+    def tree(self):
+        t = {}
+        for d in self.dirs:
+            t.update(proc.maildir_tree(d, {}))
+        for (md, sub, name), i in self.msgs.items():
+            t['%s/%s/%s' % (md, sub, name)] = ws.msg(i)
+        for rel in self.decoys:
+            t[rel] = b'X-Decoy: ' + rel.encode() + b'\n\ndecoy\n'
+        return t
+
+
+PNAMES = [('new', '1.host'), ('new', '2.host:2,FR'), ('new', '5.host:2,sa'), ('cur', '3.host:2,S'), ('cur', '4.host:2,RS'), ('cur', '6.host:2,F')]
+
+
+def pscenarios(tier):
+    base = {('src', sub, name): i + 1 for i, (sub, name) in enumerate(PNAMES)}
+    S = []
+    S.append(PScen('move', 'maildir "%s/src" {\n\tmatch all move "%s/dstA"\n}\n' % (R, R), base, lambda md, sub, n: ('dstA', sub, '')))
+    S.append(PScen('move-exdev', 'maildir "%s/src" {\n\tmatch all move "%s/dstA"\n}\n' % (R, R), base, lambda md, sub, n: ('dstA', sub, ''),
+                   devmap=('%s/dstA' % R,)))
+    S.append(PScen('flag-cur', 'maildir "%s/src" {\n\tmatch new flag !new\n}\n' % R, base, lambda md, sub, n: ('src', 'cur', '')))
+    # only new/ is configured so that the walk does not meet the messages it has just put into new/ a second time
+    S.append(PScen('flag-new', 'maildir "%s/src" {\n\tmatch header "X-Id" /^[456]$/ flag new\n}\n' % R, base,
+                   lambda md, sub, n: ('src', 'new' if n[0] in '346' else sub, '')))
+    S.append(PScen('flags', 'maildir "%s/src" {\n\tmatch all flags "Tb"\n}\n' % R, base, lambda md, sub, n: ('src', sub, 'Tb')))
+    S.append(PScen('move-flag', 'maildir "%s/src" {\n\tmatch new move "%s/dstB" flag !new\n}\n' % (R, R), base,
+                   lambda md, sub, n: ('dstB', 'cur', '') if sub == 'new' else ('src', sub, '')))
+    S.append(PScen('move-flag-exdev', 'maildir "%s/src" {\n\tmatch new move "%s/dstB" flag !new\n}\n' % (R, R), base,
+                   lambda md, sub, n: ('dstB', 'cur', '') if sub == 'new' else ('src', sub, ''), devmap=('%s/dstB' % R,)))
+    # destinations pre-populated with the names the generator will try next (counter starts at VSHIM_RANDOM % 128 = 7)
+    for k in ((1, 3) if tier == 'quick' else (1, 2, 3, 5)):
+        decoys = []
+        for c in range(8, 8 + k):
+            for sub, suf in (('new', ':2,'), ('new', ':2,FR'), ('new', ':2,as'), ('cur', ':2,S'), ('cur', ':2,RS'), ('cur', ':2,FS')):
+                decoys.append('dstA/%s/1790000000.4242_%d.host%s' % (sub, c, suf))
+        S.append(PScen('prepop-%d' % k, 'maildir "%s/src" {\n\tmatch all move "%s/dstA"\n}\n' % (R, R), base, lambda md, sub, n: ('dstA', sub, ''),
+                       decoys=decoys))
+        S.append(PScen('prepop-exdev-%d' % k, 'maildir "%s/src" {\n\tmatch all move "%s/dstA"\n}\n' % (R, R), base, lambda md, sub, n: ('dstA', sub, ''),
+                       decoys=decoys, devmap=('%s/dstA' % R,)))
+    return S
+
+
+def judge(ps, scen, r):
+    """The property evaluated on the real final tree (independent of the model)."""
+    probs = []
+    final = {rel: v for rel, v in r.final.items() if v[0] == 'file' and re.search(r'/(new|cur)/[^/]+$', rel)}
+    byid = {}
+    for rel, (kind, data, mt) in final.items():
+        i = ws.msg_id(data)
+        if i is not None:
+            byid.setdefault(i, []).append(rel)
+    for (md, sub, name), i in ps.msgs.items():
+        rel0 = '%s/%s/%s' % (md, sub, name)
+        where = byid.get(i, [])
+        if len(where) != 1:
+            probs.append('message %d (%s) exists %d times: %s' % (i, rel0, len(where), where))
+            continue
+        rel = where[0]
+        emd, esub, extra = ps.expect(md, sub, name)
+        fmd, fsub, fname = rel.split('/')
+        if (fmd, fsub) != (emd, esub):
+            probs.append('message %d (%s) is in %s/%s, documented destination %s/%s' % (i, rel0, fmd, fsub, emd, esub))
+        moved = rel != rel0
+        want = set(letters(name)) | set(extra)
+        if sub == 'new' and fsub == 'cur':
+            want.add('S')
+        if sub == 'cur' and fsub == 'new':
+            want.discard('S')
+        if moved:
+            if not GEN.match(fname):
+                probs.append('message %d: destination name %r is not a freshly generated name' % (i, fname))
+            suffix = fname[fname.index(':2,'):] if ':2,' in fname else ''
+            if suffix != canon_suffix(want):
+                probs.append('message %d (%s): flags written as %r, expected %r' % (i, rel0, suffix, canon_suffix(want)))
+            if final[rel][1] != scen.initial[rel0][1]:
+                probs.append('message %d: content changed by a move' % i)
+            if final[rel][2] != scen.initial[rel0][2]:
+                probs.append('message %d (%s -> %s): modification time %s, was %s' % (i, rel0, rel, final[rel][2], scen.initial[rel0][2]))
+        elif letters(fname) != want:
+            probs.append('message %d (%s) was not touched although flags %r were to be applied' % (i, rel0, extra))
+    for rel in ps.decoys:
+        if r.final.get(rel) != scen.initial.get(rel):
+            probs.append('pre-existing destination file %s was replaced or changed' % rel)
+    return probs
+
+
+def process_part(rep, sc):
+    tools = proc.Tools(sc)
+    W = world.WorldCheck(sc, tools)
+    results = []
+
+    def one(ps):
+        spec = ws.Spec(ps.name, ps.conf, [('^[456]$', '')] if 'X-Id' in ps.conf else [], tree=ps.tree(), devmap=ps.devmap)
+        scen = spec.build(tools)
+        try:
+            r = scen.run()
+            req, tr, notes = W.request(scen, spec.pats, r)
+            kind, detail = world.compare(scen, r, W.verdict([req])[0])
+            probs = judge(ps, scen, r)
+            if r.status != 0:
+                probs.append('exit status %s: %s' % (r.status, r.err[-200:].decode('latin-1')))
+            ut = [t for t in r.calls() if t['name'] == 'utimensat']
+            return {'scenario': ps.name, 'problems': probs, 'conform': kind, 'detail': detail[:400] if kind != 'ok' else '',
+                    'utimensat_calls': len(ut), 'eexist': sum(1 for t in r.calls() if t['errno'] == 'EEXIST'), 'messages': len(ps.msgs)}
+        finally:
+            scen.cleanup()
+
+    with cf.ThreadPoolExecutor(vlib.NCPU) as ex:
+        results = list(ex.map(one, pscenarios(rep.tier)))
+    bad = []
+    for res in results:
+        if res['problems']:
+            rep.finding('unlisted', {'scenario': res['scenario'], 'what': res['problems'][:6], 'harness': 'process (real binary under the shim)'})
+        elif res['conform'] != 'ok':
+            bad.append(res)
+    if bad and not rep.violations:
+        rep.violation({'obligation': 'correspondence: the real run does not follow Model.mainP / ends in a different state (names, contents, '
+                                     'modification times); the property oracle on the real tree found nothing wrong',
+                       'disagreements': len(bad), 'examples': bad[:6]}, False)
+    return results
 
 
 def run(rep):
@@ -63,9 +209,17 @@ def run(rep):
     if bad and not rep.violations:
         rep.violation({'obligation': 'correspondence message_parse flags / new / old <-> Model', 'disagreements': len(bad),
                        'examples': [dict(c.readable(), implementation=ec.impl_core(c), model=c.model) for c in bad[:5]]}, False)
+    pres = process_part(rep, sc)
     vlib.lean_conclude(rep)
     rep.coverage.update({
-        'evaluations': d.evals,
+        'process_scenarios': [{k: v for k, v in r.items() if k != 'detail'} for r in pres],
+        'process_rule': '%d runs of the real binary under the shim (pinned clock/pid/host/counter): move on one device and across devices, '
+                        'flag in both directions, flags, move+flag, and destinations pre-populated with the next 1-5 candidate names for '
+                        'every flag suffix; judged on the real tree: each message exactly once at the documented place, freshly generated '
+                        'name, flags = old letters +/- S + configured ones written sorted without duplicates, content and modification '
+                        'time (ns) unchanged, pre-existing destination files untouched; and every run followed call by call through '
+                        'Model.mainP (fstatat value = mtime, utimensat arguments, EEXIST retries, final names/contents/mtimes)' % len(pres),
+        'evaluations': d.evals + len(pres),
         'distinct_nontrivial': len(set(r for r, i in zip(reqs, impl) if i.startswith('OK') and i != 'OK 0 0')),
         'rule': '%d requests: file names with/without :2, suffix (upper/lower case, duplicates, unsorted, invalid), random 52-bit flag sets '
                 'through message_flags_str with several buffer sizes, msgflags for the four subdirectory pairs; implementation vs model vs '
